@@ -3,6 +3,7 @@ package c07
 import (
 	"fmt"
 	"testing"
+	"time"
 
 	"pgregory.net/rapid"
 
@@ -13,9 +14,17 @@ import (
 
 func TestMain(m *testing.M) { ev.Main(m, "C07") }
 
-func TestNoDualOwnership(t *testing.T) {
+func TestNoDualOwnership(t *testing.T) { noDualOwnership(t, wl.GroupFocus{}) }
+
+// TestNoDualOwnership848Scarce searches the denser sub-domain in which KIP-848 members lose
+// their whole assignment while a slow revoke callback spans several heartbeats.
+func TestNoDualOwnership848Scarce(t *testing.T) {
+	noDualOwnership(t, wl.GroupFocus{Only848: true, Scarce: true, SlowRevoke: true})
+}
+
+func noDualOwnership(t *testing.T, focus wl.GroupFocus) {
 	rapid.Check(t, func(rt *rapid.T) {
-		plan := wl.GenGroupPlan(rt)
+		plan := wl.GenGroupPlanF(rt, focus)
 		var o *wl.GroupObs
 		bubble.Run(t, rt, func(e *bubble.Env) {
 			o = wl.RunGroup(e, plan)
@@ -53,6 +62,9 @@ func TestNoDualOwnership(t *testing.T) {
 		}
 		if plan.Regex {
 			ev.Class("regex-subscription")
+		}
+		if plan.RevokeWork >= 700*time.Millisecond {
+			ev.Class("revoke-callback-outlasts-heartbeats")
 		}
 		ev.ClassN("ownership-callbacks", int64(len(o.Own)))
 		ev.ClassN("joins", int64(o.Joined))
